@@ -410,10 +410,17 @@ func (h *c14LogHook) Fire(e *logrus.Entry) error {
 	msg := e.Message
 	switch {
 	case strings.HasPrefix(msg, "FixStaleLocks finished"):
-		w.mu.Lock()
-		g := w.cur
-		w.mu.Unlock()
-		if g != nil {
+		// attribute the message to the generation that logged it (a
+		// killed generation may still be winding down in the background)
+		var g *c14Gen
+		if n, ok := e.Data["gen"].(int); ok {
+			w.mu.Lock()
+			if n >= 0 && n < len(w.gens) {
+				g = w.gens[n]
+			}
+			w.mu.Unlock()
+		}
+		if g != nil && !g.isDead() {
 			gaveUp := false
 			if i, j := strings.Index(msg, "("), strings.Index(msg, ")"); i >= 0 && j > i {
 				if d, err := time.ParseDuration(msg[i+1 : j]); err == nil && d >= time.Duration(w.cluster.Containers.StaleLockTimeout) {
@@ -1445,16 +1452,10 @@ func (w *c14World) killGen(g *c14Gen, deadline time.Time) bool {
 	g.mu.Lock()
 	g.dead = true
 	g.mu.Unlock()
-	closed := make(chan struct{})
-	go func() {
-		g.disp.Close()
-		close(closed)
-	}()
-	select {
-	case <-closed:
-	case <-time.After(time.Until(deadline)):
-		return false
-	}
+	// Let the dead dispatcher's goroutines wind down in the background
+	// (Close can take as long as StaleLockTimeout if the scheduler was
+	// killed inside fixStaleLocks); they are fenced off from the world.
+	go g.disp.Close()
 	// Wait until nothing of the dead process can still ARRIVE anywhere:
 	// every in-flight operation has returned, except crunch-run --detach
 	// commands whose process is already in the VM's process table (the
